@@ -243,7 +243,13 @@ def check(run):
                 det = f"`{norm_src(pc_)}`"
                 if prog.dotted(rm, pc_.func) == "functools.partial" and len(pc_.args) == 3 and not pc_.keywords:
                     r = prog.resolve_func_name(rm, pc_.args[0].id, gk) if isinstance(pc_.args[0], ast.Name) else None
-                    a2 = peel_order(pc_.args[2])
+                    a2 = pc_.args[2]
+                    envk = common.block_env(floop.body, common.enclosing_stmt(apps[0])) or {}
+                    for _ in range(3):
+                        a2 = peel_order(a2)
+                        if isinstance(a2, ast.Name) and a2.id in envk and a2.id != KWV:
+                            a2 = envk[a2.id]
+                    a2 = peel_order(a2)
                     ok_app = bool(r and r.func is fk) and common.is_name(pc_.args[1], FN) and common.is_name(a2, KWV)
                 azk = G.Atomizer(rename={KWV: "KEYWORDS"} if KWV else {})
                 pck = G.reach(floop.body, common.enclosing_stmt(apps[0]), azk)
